@@ -41,7 +41,6 @@ package local
 //@   at call lockScanLock assert[readonly] !e.readOnly
 //@   at call stager.Initialize assert[readonly] !e.readOnly
 //@   at call stager.Contains assert[readonly] !e.readOnly
-//@   at call stager.Sink assert[readonly] !e.readOnly
 //@   at call stageFromRoot assert[readonly] !e.readOnly
 //@   ensures[consumed] result3 == nil && len(paths) > 0 ==> !e.scannedSinceLastStageCall
 //@   ensures[limit] result3 == nil && len(paths) > 0 && e.maximumEntryCount != 0 ==> old(e.lastScanEntryCount) + len(paths) <= e.maximumEntryCount
